@@ -180,7 +180,7 @@ class ManualDevice(sd.Device):
         return super().uplink(link, pk)
 
     def answer(self):
-        pk, w = self.pending.pop(0), None
+        pk = self.pending.pop(0)
         for r in self.services[sv.PORT_PARAM].handle(pk):
             self.on_down('ans', r)
             self._deliver(self.link, r, 'deliver')
@@ -210,9 +210,6 @@ def pname(params, p):
 
 
 # --------------------------------------------------------------------------- one execution
-ACTORS_FIXED = ('upd', 'disp', 'ans', 'ntf')
-
-
 def _is_user(key):
     return key[0] == 'u' and key[1:].isdigit()
 
@@ -399,6 +396,7 @@ def execute(sc, mutant=None, want_projection=False):
                     if value.is_stored:
                         pay.append(typed_bytes(t, value.stored_value) or [])
                 ev.append({'e': 'cb', 'rid': rid, 'pay': pay})
+            cb._c04_rid = rid
             return cb
 
         def do_op(u, op):
@@ -540,7 +538,15 @@ def execute(sc, mutant=None, want_projection=False):
             if dop is not None:
                 dpc = 'recv' if dop.kind == 'queue.get' else 'rel' if dop.kind == 'lock.release' else '?'
             lp = upd._lock_pattern
-            return {'reqQ': len(upd.request_queue.queue), 'waitLock': bool(upd.wait_lock.locked()),
+            rc, rc_rid = getattr(upd, '_reply_callback', None), 0
+            if rc is not None:
+                rc_rid = -1
+                for cell in (getattr(rc, '__closure__', None) or ()):
+                    try:
+                        rc_rid = getattr(cell.cell_contents, '_c04_rid', rc_rid)
+                    except ValueError:
+                        pass
+            return {'replyCb': rc_rid, 'reqQ': len(upd.request_queue.queue), 'waitLock': bool(upd.wait_lock.locked()),
                     'lockPat': list(lp) if lp is not None else [], 'upc': upc, 'dpc': dpc,
                     'oneShots': len(cf.incoming.cb) - base_cbs, 'devq': len(dev.pending),
                     'inq': len(dev.link.in_queue.queue) if dev.link is not None else -1,
@@ -887,11 +893,8 @@ def scenario_from_behaviour(beh):
     return sc, acts
 
 
-PROJ_KEYS = ('reqQ', 'waitLock', 'lockPat', 'upc', 'dpc', 'oneShots', 'devq', 'inq', 'dval', 'dstored', 'cache')
-
-
 def spec_projection(st):
-    return {'reqQ': len(st['reqQ']), 'waitLock': st['waitLock'], 'lockPat': list(st['lockPat']), 'upc': st['upc'],
+    return {'replyCb': st['replyCb']['rid'], 'reqQ': len(st['reqQ']), 'waitLock': st['waitLock'], 'lockPat': list(st['lockPat']), 'upc': st['upc'],
             'dpc': st['dpc'], 'oneShots': len(st['oneShots']), 'devq': len(st['devq']), 'inq': len(st['inq']),
             'dval': [list(x) for x in st['dval']], 'dstored': [list(x) for x in st['dstored']],
             'cache': [list(x) for x in st['cache']]}
@@ -922,13 +925,17 @@ def _replay_job(cb):
 
 
 # --------------------------------------------------------------------------- in-memory mutants
+class MutantSkipped(Exception):
+    """the place a mutant patches does not exist in the tree under test"""
+
+
 def _replace_port_cb(cf, old, new):
     cbs = cf.incoming.cb
     for i, c in enumerate(cbs):
         if c.callback == old:
             cbs[i] = c._replace(callback=new)
             return True
-    raise common.MachineryError('mutant: port callback not found')
+    raise MutantSkipped('port callback of _ParamUpdater not found among the registered callbacks')
 
 
 def mut_wrap(cf):
@@ -1020,11 +1027,13 @@ def _packet_cb_variant(variant):
                             pass
                         return
                 release_pattern = pk.data[:3]
-                if upd._lock_pattern == release_pattern or (variant == 'release_cmd' and upd._lock_pattern is not None
-                                                            and len(upd._lock_pattern) == 3
-                                                            and upd._lock_pattern[:1] == release_pattern[:1]):
+                if upd._lock_pattern == release_pattern:
+                    reply_callback = getattr(upd, '_reply_callback', None)      # (absent in pre-fix trees)
+                    upd._reply_callback = None
                     upd._lock_pattern = None
                     upd.wait_lock.release()
+                    if reply_callback is not None:
+                        reply_callback(pk)
         _replace_port_cb(cf, upd._new_packet_cb, new_packet_cb)
     return install
 
@@ -1185,6 +1194,10 @@ def _exec_job(job):
             holder['undo'] = MUTANTS[mutant](cf)
     try:
         return execute(sc, wrapped if mutant else None)
+    except (MutantSkipped, AttributeError) as e:
+        if not mutant:
+            raise
+        return {'skipped': '%s: %s' % (type(e).__name__, e)}
     finally:
         undo = holder.get('undo')
         if undo:
@@ -1324,9 +1337,9 @@ def signature(t, clause, at):
 
 
 # --------------------------------------------------------------------------- the check
-VARIANT_CFG = {'cmdOnly': ('TRACE_ParamProto.cfg', 'SIM_ParamProto.cfg'),
-               'cmdId': ('TRACE_ParamProto_cmdId.cfg', 'SIM_ParamProto_cmdId.cfg'),
-               'none': ('TRACE_ParamProto_fixed.cfg', 'SIM_ParamProto_fixed.cfg')}
+VARIANT_CFG = {'none': ('TRACE_ParamProto.cfg', 'SIM_ParamProto.cfg'),              # the repaired code
+               'cmdOnly': ('TRACE_ParamProto_cmdOnly.cfg', 'SIM_ParamProto_cmdOnly.cfg'),   # pre-fix trees
+               'cmdId': ('TRACE_ParamProto_cmdId.cfg', 'SIM_ParamProto_cmdId.cfg')}
 BUG_CFGS = ['cmdOnly', 'cmdId', 'noWait', 'lifo', 'wrap', 'roSend', 'anyRelease', 'cbTwice']
 
 
@@ -1472,7 +1485,7 @@ def main(tier, seed, replay=None):
         rp = json.load(open(replay))['replay']
         _init()
         t = execute(rp['scenario'])
-        bad, _ = judge(out, [t], 'replay', 'TRACE_ParamProto_fixed.cfg')
+        bad, _ = judge(out, [t], 'replay', 'TRACE_ParamProto.cfg')
         report_violations(out, bad, {t['id']: rp['scenario']})
         out.samples = [{'events': t['ev'][:40]}]
         return out.finish()
@@ -1505,10 +1518,13 @@ def main(tier, seed, replay=None):
         # 4a. in-memory mutants on the sensitivity scenarios
         mnames = sorted(MUTANTS)
         mtraces = common.pmap(_exec_job, [(sc, name) for name in mnames for sc in msc], init=_init, maxtasks=400)
-        # 4a'. control: the same machinery on an in-memory emulation of the two proposed repairs must accept
-        csc = pairs[::(3 if tier == 'quick' else 1)] + connect_ntf_scenarios() + \
-            [gen_scenario(random.Random(seed * 7 + i)) for i in range(60 if tier == 'quick' else 1500)]
-        ctraces = common.pmap(_exec_job, [(sc, 'PATCHED') for sc in csc], init=_init, maxtasks=400)
+        # 4a'. control (pre-fix trees only): the same machinery on an in-memory emulation of the two repairs must accept
+        ctraces = []
+        if variant != 'none':
+            csc = pairs[::(3 if tier == 'quick' else 1)] + connect_ntf_scenarios() + \
+                [gen_scenario(random.Random(seed * 7 + i)) for i in range(60 if tier == 'quick' else 1500)]
+            ctraces = [t for t in common.pmap(_exec_job, [(sc, 'PATCHED') for sc in csc], init=_init, maxtasks=400)
+                       if 'skipped' not in t]
         lap('execute mutants')
         sim = pipe_r.recv()
         if isinstance(sim, str):
@@ -1530,13 +1546,13 @@ def main(tier, seed, replay=None):
         for i, t in enumerate(all_traces):
             t['id'] = i + 1
         corrupt = corrupted_traces(all_traces)
-        allm = mtraces + [c[1] for c in corrupt]
+        allm = [t for t in mtraces if 'skipped' not in t] + [c[1] for c in corrupt]
         for i, t in enumerate(allm):
             t['id'] = i + 1
         for i, t in enumerate(ctraces):
             t['id'] = i + 1
         vr = validate_groups(trace_cfg, {'real': all_traces, 'sens': allm, 'ctrl': ctraces},
-                             10 if tier == 'quick' else common.NCPU, cfg_of={'ctrl': 'TRACE_ParamProto_fixed.cfg'})
+                             10 if tier == 'quick' else common.NCPU, cfg_of={'ctrl': 'TRACE_ParamProto.cfg'})
         lap('judge traces (TLC)')
         res = pipe_r.recv()
     finally:
@@ -1596,18 +1612,18 @@ def main(tier, seed, replay=None):
                             'events': [e for e in t['ev'][max(0, at - 12):at] if e['e'] != 'step']})
 
     # 4c. sensitivity verdicts
-    cbad, cdrift = classify(ctraces, vr['ctrl'][0])
-    out.tlc_runs.append({'config': 'TRACE_ParamProto_fixed.cfg (control: emulated repairs)', 'states': vr['ctrl'][1]['states'],
-                         'transitions': vr['ctrl'][1]['transitions'], 'wall_s': round(vr['ctrl'][1]['wall_s'], 2),
-                         'traces': len(ctraces), 'note': 'control runs, not added to the evidence totals'})
-    out.sensitivity['control:emulated-repairs'] = (
-        '%d traces of the code with both proposed repairs emulated in memory: %d rejected by the monitor, %d not explained '
-        'by the design spec with Bug = "none"' % (len(ctraces), len(cbad), len(cdrift)))
-    if os.environ.get('VERIF_DEBUG'):
-        print('[C04]', out.sensitivity['control:emulated-repairs'],
-              [(c, a, t['ev'][max(0, a - 3):a]) for (t, c, a) in cbad[:2]], [(a, t['ev'][max(0, a - 3):a + 1]) for (t, a) in cdrift[:2]], flush=True)
-    if cbad:
-        raise common.MachineryError('the monitor rejects the emulated repaired code: %s' % sorted({c for (_t, c, _a) in cbad}))
+    if ctraces:
+        cbad, cdrift = classify(ctraces, vr['ctrl'][0])
+        out.tlc_runs.append({'config': 'TRACE_ParamProto.cfg (control: emulated repairs)', 'states': vr['ctrl'][1]['states'],
+                             'transitions': vr['ctrl'][1]['transitions'], 'wall_s': round(vr['ctrl'][1]['wall_s'], 2),
+                             'traces': len(ctraces), 'note': 'control runs, not added to the evidence totals'})
+        out.sensitivity['control:emulated-repairs'] = (
+            '%d traces of the code with both repairs emulated in memory: %d rejected by the monitor, %d not explained '
+            'by the design spec with Bug = "none"' % (len(ctraces), len(cbad), len(cdrift)))
+        if cbad:
+            raise common.MachineryError('the monitor rejects the emulated repaired code: %s' % sorted({c for (_t, c, _a) in cbad}))
+    else:
+        out.sensitivity['control:emulated-repairs'] = 'skipped: the tree under test is the repaired code (variant none)'
     bad_ids = {b[0]['id'] for b in bad}
     msc_ids = {id(sc) for sc in msc}
     msc_failed = [t['id'] for t, sc in zip(all_traces, all_scs) if id(sc) in msc_ids and t['id'] in bad_ids]
@@ -1617,19 +1633,24 @@ def main(tier, seed, replay=None):
     bad_by_id = {t['id']: c for (t, c, _a) in mbad}
     drift_ids = {t['id'] for (t, _a) in mdrift}
     for mi, name in enumerate(mnames):
-        ids = range(mi * len(msc) + 1, (mi + 1) * len(msc) + 1)
+        mine = mtraces[mi * len(msc):(mi + 1) * len(msc)]
+        ran = [t for t in mine if 'skipped' not in t]
+        if not ran:
+            out.sensitivity['mutant:' + name] = 'skipped (%s)' % (mine[0]['skipped'] if mine else 'no scenario')
+            continue
         cl = {}
-        for i in ids:
-            if i in bad_by_id:
-                cl[bad_by_id[i]] = cl.get(bad_by_id[i], 0) + 1
+        for t in ran:
+            if t['id'] in bad_by_id:
+                cl[bad_by_id[t['id']]] = cl.get(bad_by_id[t['id']], 0) + 1
         n = sum(cl.values())
-        out.sensitivity['mutant:' + name] = '%d of %d traces rejected %s' % (n, len(msc), sorted(cl.items()))
+        out.sensitivity['mutant:' + name] = '%d of %d traces rejected %s' % (n, len(ran), sorted(cl.items()))
         if os.environ.get('VERIF_DEBUG'):
             print('[C04] mutant', name, out.sensitivity['mutant:' + name], flush=True)
         if n == 0:
             raise common.MachineryError('monitor did not reject in-memory mutant %s' % name)
+    ncorr0 = len(allm) - len(corrupt)
     for i, (name, _t) in enumerate(corrupt):
-        cid = len(mtraces) + i + 1
+        cid = ncorr0 + i + 1
         how = bad_by_id.get(cid) or ('conformance lost' if cid in drift_ids else None)
         out.sensitivity['binding:' + name] = ('rejected (%s)' % how) if how else 'ACCEPTED'
         if not how:
